@@ -782,7 +782,11 @@ def _atom_name(fn, e, truth):
         is_apply = (e["op"] == "Eq") != neg
         return "apply" if is_apply else "!apply"
     if e.get("k") == "Binary" and e["op"] in ("Ge", "Gt", "Lt", "Le") and hir.is_call(hir.peel(e["l"])) and (hir.callee_name(hir.peel(e["l"])) or hir.peel(e["l"]).get("method")) == "len":
-        txt = "args.len()%s%s" % ({"Ge": ">=", "Gt": ">", "Lt": "<", "Le": "<="}[e["op"]], hir.lit_value(e["r"]))
+        op_ = e["op"]
+        if neg and op_ in ("Lt", "Gt"):
+            # !(len < n) is len >= n: one spelling for the key
+            op_, neg = {"Lt": "Ge", "Gt": "Le"}[op_], False
+        txt = "args.len()%s%s" % ({"Ge": ">=", "Gt": ">", "Lt": "<", "Le": "<="}[op_], hir.lit_value(e["r"]))
     elif hir.is_call(e):
         nm = hir.callee_name(e) or e.get("method")
         base = re.sub(r"#\d+", "", hir.place(hir.call_args(e)[0]) or "?") if hir.call_args(e) else "?"
@@ -804,8 +808,28 @@ def rule_apply_args(check):
     R = "APPLY-ARGS"
     check.rule(R, "the argument test of the `.call/.apply` path (invalid_args) turns a call away only when its this-argument and every element of its array-literal argument list are literals (the documented literal exclusion); every other shape - `.call`, `.apply(thisArg)`, `.apply(thisArg, <not an array literal>)`, a spread list - is accepted, and the literal test ranges over all elements")
     prog = check.prog
-    f = prog.fn("function_prototype_transform::invalid_args")
-    paths = hir.decision_paths(f.body)
+    f = prog.fn_opt("function_prototype_transform::invalid_args")
+    pre = []
+    if f is None:
+        # by role: the crate predicate over the call / its argument list whose `true` makes
+        # get_expression_parts_from_call_or_apply give up (`return None`); tests made at the call site before
+        # it (`name == "apply" && invalid(..)`) are part of every path
+        g = prog.fn("FunctionPrototypeTransform::get_expression_parts_from_call_or_apply")
+        for x in hir.walk(g.body):
+            if x.get("k") != "If" or not hir.diverges(x["then"]):
+                continue
+            nones = [y for y in hir.walk(x["then"]) if y.get("k") == "Ret" and "x" in y and (hir.peel(y["x"]).get("res") or {}).get("ctor_path", "").split("::")[-1] == "None"]
+            if not nones:
+                continue
+            cj = T._conjuncts(x["cond"])
+            hs = [(c_, prog.resolve_local(hir.peel(c_))) for c_ in cj if hir.is_call(hir.peel(c_))]
+            hs = [(c_, h_) for c_, h_ in hs if h_ is not None and h_.body is not None and (h_.rec.get("ret") or "") == "bool" and any(("ExprOrSpread" in (p_.get("ty") or "")) or ("CallExpr" in (p_.get("ty") or "")) for p_ in h_.rec.get("params", []))]
+            if len(hs) == 1:
+                f = hs[0][1]
+                pre = [(c_, True) for c_ in cj if c_ is not hs[0][0]]
+        if f is None:
+            raise AnchorMissing("function function_prototype_transform::invalid_args", absent=True)
+    paths = [(pre + list(conds_), v_) for conds_, v_ in hir.decision_paths(f.body)]
     check.floor(R, "paths of the argument test", len(paths), 3)
     split = []
     for conds, v in paths:
